@@ -208,8 +208,8 @@ Section Refine.
   Variable contents : kv_st K -> kvlist.
   Hypothesis H_put : forall k v s, contents (kv_put K k v s) = sm_put k v (contents s).
   Hypothesis H_del : forall k s, contents (kv_del K k s) = sm_del k (contents s).
-  Hypothesis H_scan : forall p s, kv_scan K p s = sm_scan p (contents s).
-  Hypothesis H_restore : forall s, contents (kv_restore K s) = contents s.
+  Hypothesis H_scan : forall p s, fst (kv_scan K p s) = sm_scan p (contents s) /\ contents (snd (kv_scan K p s)) = contents s.
+  Hypothesis H_restore : forall cur s, contents (kv_restore K cur s) = contents s.
 
   Variable kgf : bytes -> N.
   Variable accept : bytes -> Z -> bool.
@@ -328,18 +328,30 @@ Section Refine.
     eapply inv_ext; [|exact H1]. intros k. reflexivity.
   Qed.
 
-  (* reading: GetState returns the grouped flat map of that subject, never panics *)
-  Lemma get_state_inv s A k : key_ok k -> Inv s A -> get_state K kgf k s = Some (view (A k)).
+  (* the invariant only looks at the contents *)
+  Lemma inv_contents s s' A : contents s' = contents s -> Inv s A -> Inv s' A.
+  Proof. intros E. unfold Inv. rewrite E. tauto. Qed.
+
+  (* reading: GetState returns the grouped flat map of that subject, never panics, leaves the contents alone *)
+  Lemma get_state_inv s A k : key_ok k -> Inv s A ->
+    exists s', get_state K kgf k s = Some (view (A k), s') /\ contents s' = contents s.
   Proof.
-    intros Hk (I1 & I2 & I3). unfold get_state. rewrite H_scan, (I2 k Hk).
-    rewrite decode_entries_encp by (auto; apply I3). reflexivity.
+    intros Hk (I1 & I2 & I3). unfold get_state.
+    destruct (H_scan (enc_subject kgf k) s) as [E1 E2].
+    destruct (kv_scan K (enc_subject kgf k) s) as [l s']. cbn [fst snd] in *. subst l.
+    rewrite (I2 k Hk), decode_entries_encp by (auto; apply I3). exists s'. split; [reflexivity|exact E2].
   Qed.
 
-  Lemma fetch_states_inv s A ks :
-    Forall key_ok ks -> Inv s A -> fetch_states K kgf ks s = Some (map (fun k => (k, view (A k))) ks).
+  Lemma fetch_states_inv ks : forall s A,
+    Forall key_ok ks -> Inv s A ->
+    exists s', fetch_states K kgf ks s = Some (map (fun k => (k, view (A k))) ks, s') /\ contents s' = contents s.
   Proof.
-    intros Hks HI. induction ks as [|k ks IH]; cbn [fetch_states map]; [reflexivity|].
-    inversion Hks; subst. rewrite (get_state_inv s A k) by assumption. rewrite IH by assumption. reflexivity.
+    induction ks as [|k ks IH]; intros s A Hks HI; cbn [fetch_states map].
+    - exists s. split; reflexivity.
+    - inversion Hks as [|? ? Hk Hks']; subst.
+      destruct (get_state_inv s A k Hk HI) as (s1 & E1 & C1). rewrite E1.
+      destruct (IH s1 A Hks' (inv_contents _ _ _ C1 HI)) as (s2 & E2 & C2). rewrite E2.
+      exists s2. split; [reflexivity|]. now rewrite C2.
   Qed.
 
   Lemma distinct_keys_ok seen l : Forall key_ok l -> Forall key_ok (distinct_keys seen l).
@@ -370,8 +382,8 @@ Section Refine.
     cbn [fst snd] in *. subst j. destruct (i =? id); [exact HI|exact IH].
   Qed.
 
-  Lemma inv_restore s A : Inv s A -> Inv (kv_restore K s) A.
-  Proof. intros (I1 & I2 & I3). unfold Inv. rewrite H_restore. auto. Qed.
+  Lemma inv_restore cur s A : Inv s A -> Inv (kv_restore K cur s) A.
+  Proof. apply inv_contents. apply H_restore. Qed.
 
   Lemma sim_step h y a st :
     handler_ok h -> step_ok st -> Sim y a ->
@@ -385,7 +397,8 @@ Section Refine.
         set (keys := distinct_keys [] (map fst (ev :: evs))).
         assert (Hkeys : Forall key_ok keys).
         { apply distinct_keys_ok. cbn [step_ok] in Hst. clear -Hst. induction Hst; cbn [map]; constructor; auto. }
-        rewrite (fetch_states_inv _ _ keys Hkeys HI).
+        destruct (fetch_states_inv keys _ _ Hkeys HI) as (s1 & Ef & Cf). rewrite Ef.
+        apply (inv_contents _ _ _ Cf) in HI.
         eexists; split; [reflexivity|].
         unfold Sim; cbn [sy_db sy_saved sy_trace o_log o_saved o_trace].
         unfold o_state, A_of in *.
@@ -438,8 +451,8 @@ End Refine.
 Lemma list_kv_refines :
   (forall k v s, (fun m : kv_st list_kv => m) (kv_put list_kv k v s) = sm_put k v s) /\
   (forall k s, (fun m : kv_st list_kv => m) (kv_del list_kv k s) = sm_del k s) /\
-  (forall p s, kv_scan list_kv p s = sm_scan p s) /\
-  (forall s, kv_restore list_kv s = s).
+  (forall p s, fst (kv_scan list_kv p s) = sm_scan p s /\ snd (kv_scan list_kv p s) = s) /\
+  (forall cur s, kv_restore list_kv cur s = s).
 Proof. repeat split. Qed.
 
 Theorem refines_per_key_map_list kgf accept h steps :
@@ -448,6 +461,6 @@ Theorem refines_per_key_map_list kgf accept h steps :
             sy_trace y = o_trace (o_run h o_init steps).
 Proof.
   intros Hh Hs.
-  exact (refines_per_key_map list_kv (fun m => m) (fun _ _ _ => eq_refl) (fun _ _ => eq_refl) (fun _ _ => eq_refl)
-           (fun _ => eq_refl) kgf accept h steps [] eq_refl Hh Hs).
+  exact (refines_per_key_map list_kv (fun m => m) (fun _ _ _ => eq_refl) (fun _ _ => eq_refl) (fun _ _ => conj eq_refl eq_refl)
+           (fun _ _ => eq_refl) kgf accept h steps [] eq_refl Hh Hs).
 Qed.
